@@ -54,7 +54,11 @@ def check_options():
     if options.args().parser_test:
         # only parse and print
         with open(options.args().infile, 'r', newline='') as infile:
-            exprs = list(nodeio.parse_smtlib(infile.read()))
+            try:
+                text = infile.read()
+            except UnicodeDecodeError as e:
+                raise DDSMTException(f'input file can not be decoded: {e}')
+        exprs = list(nodeio.parse_smtlib(text))
         nodeio.write_smtlib(sys.stdout, exprs)
         sys.exit(0)
 
